@@ -31,8 +31,9 @@ RULE = ('pairs of workloads from {iterative cap-bound, iterative tolerance-bound
 BUDGET = {'quick': 25, 'thorough': 300}
 FLOORS = {
     'quick': {'schedules': 300, 'distinct_interleavings': 100, 'both_parked_mid_evaluation': 100,
-              'points': 5000, 'fresh_thread_ops': 22, 'stress_rounds': 8, 'pair:iter+iter': 20,
-              'pair:iter+cse': 10, 'pair:cse+iter': 10, 'pair:cse+cse': 4},
+              'points': 3000, 'fresh_thread_ops': 22, 'stress_rounds': 8, 'pair:iter+iter': 20,
+              'pair:iter+cse': 20, 'pair:cse+iter': 20, 'pair:cse+cse': 20, 'pair:plain+iter': 10,
+              'pair:cse+plain': 10},
     'thorough': {'schedules': 8000, 'distinct_interleavings': 3000, 'fresh_thread_ops': 400,
                  'stress_rounds': 100, 'pair:cse+cse': 100, 'pair:plain+iter': 50},
 }
@@ -350,7 +351,17 @@ def schedules(ctx):
             for k in range(1, nb + 1):
                 for m in (range(1, na - j + 1) if full else [rng.randint(1, max(1, na - j))]):
                     work.append((ia, ib, j, k, m))
+    # round robin over the 25 workload pairs, so that a budget-limited run covers them evenly
+    by_pair = {}
     rng.shuffle(work)
+    for item in work:
+        by_pair.setdefault(item[:2], []).append(item)
+    work = []
+    queues = [by_pair[k] for k in sorted(by_pair)]
+    while any(queues):
+        for q in queues:
+            if q:
+                work.append(q.pop())
     for item in work:
         n += 1
         if not ctx.mine(n):
